@@ -58,7 +58,3 @@ Theorem C02_client_finish_shape : skel_tunnelClientStream_finishStream =
   ["call done.CompareAndSwap"; "defer call cancel"; "call ch.removeStream"; "defer call receiver.close"; "call metaMu.Lock"; "defer call metaMu.Unlock"; "set trailers"; "set gotHeaders"; "close gotHeadersSignal"; "close doneSignal"].
 Proof. exact tunnelClientStream_finishStream_shape. Qed.
 Print Assumptions C02_client_finish_shape.
-Theorem C02_accept_frame_shape : skel_tunnelClientStream_acceptServerFrame =
-  ["call finishStream"; "call metaMu.Lock"; "defer call metaMu.Unlock"; "set gotHeaders"; "set headers"; "close gotHeadersSignal"; "call finishStream"; "call sender.updateWindow"; "call finishStream"; "call receiver.accept"; "call finishStream"].
-Proof. exact tunnelClientStream_acceptServerFrame_shape. Qed.
-Print Assumptions C02_accept_frame_shape.
